@@ -41,7 +41,7 @@ Step ==
   /\ LET e == Trace[l] IN
        IF e.ev = "reset" THEN early' = {} /\ late' = {} /\ UNCHANGED <<viol, cnt>>
        ELSE LET ps == Preds(e) IN
-            /\ viol' = viol \cup Failures(ps, e, l)
+            /\ viol' = Merge(viol, Failures(ps, e, l))
             /\ cnt'  = Count(cnt, ps)
             /\ early' = IF e.ev = "arrive" /\ e.when = "before" THEN early \cup {e.d} ELSE early
             /\ late'  = IF e.ev = "arrive" /\ e.when = "after"  THEN late \cup {e.d} ELSE late
